@@ -253,6 +253,18 @@ theorem C16_blur_refines (expf sqrtf : K → K) (hs : IsSqrt sqrtf) (pi sigma cu
   unfold blurSpec
   rw [sumRange_eq, Finset.sum_filter]
 
+/-- the form of the Spec evaluated by the driver's `spec` mode (cut-off decided on the squared distance) is the Spec -/
+theorem C16_blur_spec_sq (expf sqrtf : K → K) (hs : IsSqrt sqrtf) (pi sigma cut : K) (np : ℕ) (d2 cond : ℕ → K)
+    (hd : ∀ p, 0 ≤ d2 p) :
+    blurSpecSq id expf sqrtf pi sigma cut np d2 cond
+      = blurSpec expf sqrtf pi sigma cut np (fun p => sqrtf (d2 p)) cond := by
+  unfold blurSpecSq blurSpec
+  rw [sumRange_eq, sumRange_eq]
+  refine Finset.sum_congr rfl fun p _ => ?_
+  rw [← C16_blur_cut sqrtf hs cut (d2 p) (hd p)]
+  unfold selected
+  simp only [id, decide_eq_true_eq]
+
 end blurT
 
 /-- over ℝ with the real `exp`, `√`, `π`: the contract `IsSqrt` is met (non-vacuity) and the value is
